@@ -15,8 +15,10 @@ def make_sort_key(table, sort_spec):
   col_sort_spec = []
   for col_spec in sort_spec:
     col_id, sign = (col_spec[1:], -1) if col_spec.startswith('-') else (col_spec, 1)
-    col_obj = table.get_column(col_id)
-    col_sort_spec.append((col_obj, sign))
+    # Check that the column exists now, but look it up each time values are needed: the column
+    # object gets replaced when the column's type changes, and the old object goes stale.
+    table.get_column(col_id)
+    col_sort_spec.append((col_id, sign))
 
   class SortKey(object):
     __slots__ = ("row_id", "values")
@@ -26,10 +28,11 @@ def make_sort_key(table, sort_spec):
       # must still be comparable to any valid row_id (e.g. must not be None). We use
       # +-sys.float_info.max in records.py for this.
       self.row_id = row_id
-      self.values = values or tuple(c.get_cell_value(row_id) for (c, _) in col_sort_spec)
+      self.values = values or tuple(table.get_column(c).get_cell_value(row_id)
+                                    for (c, _) in col_sort_spec)
 
     def __lt__(self, other):
-      for (a, b, (col_obj, sign)) in zip(self.values, other.values, col_sort_spec):
+      for (a, b, (_, sign)) in zip(self.values, other.values, col_sort_spec):
         try:
           if a < b:
             return sign == 1
